@@ -442,4 +442,13 @@ def _default_nontrivial(r):
 
 
 if __name__ == '__main__':
-    sys.exit(main())
+    try:
+        rc = main()
+    except SystemExit:
+        raise
+    except BaseException as e:      # anything raised outside an invariant is a harness error: exit 2, never a VIOLATION line
+        import traceback
+        traceback.print_exc()
+        print(f'HARNESS ERROR (not a violation): {type(e).__name__}: {e}')
+        rc = 2
+    sys.exit(rc)
